@@ -71,6 +71,24 @@ pub fn run(ctx: &Ctx) -> Value {
             n_round += 1;
         } }
     }
+    // inside a leap second, under east / west / no offset, naive and zone-aware: the stamp is that of the wall clock, fraction running on
+    for frac in [1_000_000_000u32, 1_300_000_000, 1_999_999_999] { for off in [0, 19_800, -3_600, 34_230] { for sp in [NS, 10 * NS, 60 * NS, 3600 * NS, 86_400 * NS, 7, 500_000_000] { for mode in ["trunc", "round", "up"] {
+        use chrono::TimeZone;
+        let u = mk_ndt(days_from_civil(2016, 12, 31), 86_399, frac);
+        let z = FixedOffset::east_opt(off).unwrap().from_utc_datetime(&u);
+        let span = mk_dur(sp).unwrap();
+        tw.emit(ev("round", json!({"mode": mode, "u": ndt(u), "off": off, "span": big(sp), "naive": false}), || {
+            match (match mode { "trunc" => z.duration_trunc(span), "round" => z.duration_round(span), _ => z.duration_round_up(span) }) {
+                Ok(q) => { let m = wall_ns(q.naive_utc(), off); let k = m.div_euclid(sp);
+                    // classification of the deviation for the known finding C17-leap-second-rounded-up (never read by the specification): the result is
+                    // exactly one second before the multiple that lies above the input
+                    let stamp = wall_ns(u, off); let rem = stamp.rem_euclid(sp);
+                    let above = if rem == 0 { stamp } else { stamp - rem + sp };
+                    let dev = if mode != "trunc" && m == above - NS { "leap-up-one-second-short" } else { "" };
+                    json!({"k": big(k), "r": {"ok": ndt(q.naive_utc())}, "dev": dev}) }
+                Err(e) => json!({"k": big(0), "r": {"err": format!("{:?}", e)}}) } }));
+        n_round += 1;
+    } } } }
     // zone-aware values whose wall clock lies in the one-day headroom beyond the date range: far outside the 64-bit window, a refusal
     for (u, offsets) in [(chrono::NaiveDateTime::MAX, [1, 3600, 86_399]), (chrono::NaiveDateTime::MIN, [-1, -3600, -86_399])] {
         for off in offsets { for sp in [1i128, NS, 3600 * NS, 86_400 * NS, 0, DUR_LIM] { for mode in ["trunc", "round", "up"] {
